@@ -336,7 +336,9 @@ Refill(s) ==
 
 \* connector updates (G10) ---------------------------------------------------
 CompsChars(n) == [i \in 1..Len(n) |-> Chars(n[i])]
-Conn(t, n, rec) == [target |-> Flat(t), comps |-> CompsChars(n), rec |-> rec]
+Conn(t, n, rec) == [target |-> Flat(t), comps |-> CompsChars(n), rec |-> rec, more |-> <<>>]
+ConnMany(ns) == [target |-> Flat(<<>>), comps |-> CompsChars(ns[1]), rec |-> FALSE,
+                 more |-> [i \in 1..(Len(ns) - 1) |-> CompsChars(ns[i + 1])]]
 
 ConnCreate(n) ==
   IF Canon(n) \notin boxes /\ ~OverLimit(boxes \cup {n})
@@ -346,6 +348,20 @@ ConnCreate(n) ==
        /\ UNCHANGED holder
        /\ last' = Rec("MailboxCreated", 0, <<>>, "ok", {n}, {}, {}, Conn(<<>>, n, FALSE))
   ELSE Refuse("MailboxCreated", 0, <<>>, "err", Conn(<<>>, n, FALSE))
+
+\* connector.IMAPState.Write: the connector itself creates the mailboxes ns in ONE write transaction (one
+\* IMAPStateWrite.CreateMailbox per name, connector_state_write.go) - all or nothing against the mailbox-count limit
+ConnStateWrite(ns) ==
+  LET new == {ns[i] : i \in 1..Len(ns)} IN
+  /\ Len(ns) \in 1..2 /\ Cardinality(new) = Len(ns)
+  /\ \A n \in new : Canon(n) \notin boxes /\ n[1] \notin InboxVariants
+  /\ IF ~OverLimit(boxes \cup new)
+     THEN /\ WithinBounds(boxes \cup new)
+          /\ boxes' = boxes \cup new
+          /\ subs' = subs \cup new
+          /\ UNCHANGED holder
+          /\ last' = Rec("StateWrite", 0, <<>>, "ok", new, {}, {}, ConnMany(ns))
+     ELSE Refuse("StateWrite", 0, <<>>, "err", ConnMany(ns))
 
 \* t: an existing mailbox other than INBOX; or INBOX re-announced in another case (no change)
 ConnUpdate(t, n) ==
@@ -402,6 +418,8 @@ ConnStep ==
   /\ \/ \E n \in ConnNames : ConnCreate(n)
      \/ \E t \in boxes, n \in ConnNames : ConnUpdate(t, n)
      \/ \E t \in boxes : ConnDelete(t)
+     \/ \E n \in ConnNames : ConnStateWrite(<<n>>)
+     \/ \E n, m \in ConnNames : ConnStateWrite(<<n, m>>)
      \/ \E k \in {"MailboxCreated", "MailboxUpdated", "MailboxDeleted"} : ConnRecovery(k, <<"a">>)
 
 Free == ClientStep \/ ConnStep
@@ -415,7 +433,7 @@ Pick(S) == RandomElement({x \in S : steps >= 0})
 
 Kinds == <<"create", "create", "create", "create", "delete", "delete", "rename", "rename", "rename",
            "sub", "unsub", "unsub", "append">>
-       \o (IF Connector THEN <<"ccreate", "ccreate", "cupdate", "cupdate", "cdelete", "crec">> ELSE <<>>)
+       \o (IF Connector THEN <<"ccreate", "ccreate", "cupdate", "cupdate", "cdelete", "crec", "cwrite", "cwrite">> ELSE <<>>)
 KindSet == {<<i, Kinds[i]>> : i \in 1..Len(Kinds)}
 
 \* names close to what exists: existing ones, subscribed ones, their children, their placeholders
@@ -463,6 +481,13 @@ SimStep(k) ==
                           ELSE \E c \in {PickTyped} :
                                  IF Steered /\ CreateNews(c) \cap Stale # {} THEN Clean(s, CreateNews(c)) ELSE Create(s, Raw(c, "plain"))
       [] k = "ccreate" -> \E n \in {PickConnName} : IF Steered /\ n \in Stale THEN Clean(s, {n}) ELSE ConnCreate(n)
+      [] k = "cwrite"  -> \E n \in {PickConnName}, m \in {Pick(ConnNames)}, two \in {Pick(1..2)} :
+                            LET ns == IF two = 2 /\ m # n THEN <<n, m>> ELSE <<n>>
+                                new == {ns[i] : i \in 1..Len(ns)}
+                            IN IF Steered /\ new \cap Stale # {} THEN Clean(s, new)
+                               ELSE IF \A x \in new : Canon(x) \notin boxes /\ x[1] \notin InboxVariants
+                                    THEN ConnStateWrite(ns)
+                                    ELSE ConnRecovery("MailboxCreated", <<"a">>)
       [] k = "cupdate" -> \E t \in {Pick(boxes)}, n \in {PickConnName} :
                             IF t = Inbox THEN ConnUpdate(t, <<Pick(InboxVariants)>>)
                             ELSE IF Steered /\ n \in Stale THEN Clean(s, {n}) ELSE ConnUpdate(t, n)
